@@ -4,7 +4,9 @@ import importlib
 SPECS = [
     ("cvrp", "CVRP"), ("tsp", "TSP"),
     ("atsp", "ATSP"), ("pdp", "PDP"), ("op", "OP"), ("op", "OPBoundary"),
+    ("cvrptw", "CVRPTW"), ("svrp", "SVRP"), ("pctsp", "PCTSP"), ("pctsp", "PCTSPReq"), ("spctsp", "SPCTSP"), ("sdvrp", "SDVRP"),
     ("mtsp", "MTSP"), ("mdcpdp", "MDCPDP"), ("mdcpdp", "MDCPDPGen"), ("mdcpdp", "MDCPDPHet"),
+    ("smtwtp", "SMTWTP"), ("ffsp", "FFSP"),
     ("flp", "FLP"), ("flp", "FLPFull"), ("mcp", "MCP"), ("mcp", "MCPFull"), ("dpp", "DPP"), ("dpp", "MDPP"),
 ]
 
@@ -13,6 +15,8 @@ for mod, cls in SPECS:
     try:
         m = importlib.import_module("harness.envs." + mod)
     except ModuleNotFoundError:
+        continue
+    if not hasattr(m, cls):
         continue
     a = getattr(m, cls)()
     if not hasattr(a, "tag"):
